@@ -54,6 +54,7 @@ class Evaluator:
         self.constants = set()       # integer constants an input was compared with
         self.other_uses = []         # (description) uses of an input outside the comparison fragment
         self.shift_thresholds = set()
+        self.models = {}             # fn id -> callable(evaluator, this, args): a decided summary used instead of interpreting the body
 
     # values are plain python ints/bools/Obj; inputs are wrapped so that uses can be tracked
     class In(object):
@@ -238,8 +239,10 @@ class Evaluator:
                 return 0 if a == b else 1      # byte arrays are modelled as one opaque value
             if g is None:
                 raise NotPure('call to a function without a body: ' + str(e.get('name')))
-            obj = self.ev(e['obj'], fn, this, env, depth) if ir.is_expr(e.get('obj')) else None
+            obj = self.ev(e['obj'], fn, this, env, depth) if ir.is_expr(e.get('obj')) else (this if g.cls == fn.cls else None)
             args = [self.ev(a, fn, this, env, depth) for a in e.get('args', [])]
+            if g.id in self.models:
+                return self.models[g.id](self, obj, args)
             return self.call(g, obj, args, depth + 1)
         if k == 'ctor':
             g = self.F.fn(e['fn']) if e.get('fn') is not None else None
